@@ -1,9 +1,9 @@
 import Driver.Proto
-namespace Driver
+namespace Driver.C07
 open Scrapli
 
 /-- line-protocol handler for property C07 (arguments after the leading `c07` token) -/
 def handleC07 : List String → String
   | _ => "bad-op"
 
-end Driver
+end Driver.C07
